@@ -1,5 +1,6 @@
 import NfpmModel.Spec.ScriptSpec
 import NfpmModel.Generated.G2Scripts
+import NfpmModel.Lemmas.DebControlLemmas
 /-
   C09  Maintainer scripts land verbatim in the slot their lifecycle event runs.
 
@@ -170,6 +171,29 @@ example : scriptSlots .deb [(b!"Scripts.PreInstall", b!"#!/bin/sh\n"), (b!"Deb.S
     = [(b!"preinst", b!"#!/bin/sh\n"), (b!"templates", [0, 255, 10])] := by decide
 example : scriptSlots .rpm [(b!"Scripts.PreInstall", [])] = [] := by decide
 example : scriptSlots .rpm [(b!"Scripts.PostRemove", [97, 0, 98])] = [(b!"1026", [97])] := by decide
+
+/-! ### deb: the scripts inside the control archive, at byte level -/
+
+/-- **deb: the control archive reads back and every maintainer script is where dpkg looks for it**: for any control text,
+    md5sums, conffiles, trigger lines and any assignment of script bodies to the seven slots, an independent tar reader
+    recovers the members of the archive deb.createControl writes, and looking a slot's name up among them yields a member
+    iff that script is configured – then with exactly the configured bytes, the slot's mode (0755; templates 0644) and
+    the package mtime.  control, md5sums and conffiles are always present, triggers iff there is a trigger line -/
+theorem deb_scripts_in_control_archive (mtime : Nat) (control md5sums conffiles triggers : Bytes) (scripts : Bytes → Option Bytes)
+    (hm : mtime < 8 ^ 11) (hc : control.length < 8 ^ 11) (h5 : md5sums.length < 8 ^ 11) (hf : conffiles.length < 8 ^ 11)
+    (ht : triggers.length < 8 ^ 11) (hs : ∀ n b, scripts n = some b → b.length < 8 ^ 11) :
+    ∃ ms, Tar.read (Tar.archive (DebCtl.members mtime control md5sums conffiles triggers scripts)) = some ms
+      ∧ DebCtl.lookup b!"control" ms = some (DebCtl.file b!"control" 0o644 mtime control)
+      ∧ DebCtl.lookup b!"md5sums" ms = some (DebCtl.file b!"md5sums" 0o644 mtime md5sums)
+      ∧ DebCtl.lookup b!"conffiles" ms = some (DebCtl.file b!"conffiles" 0o644 mtime conffiles)
+      ∧ (triggers ≠ [] → DebCtl.lookup b!"triggers" ms = some (DebCtl.file b!"triggers" 0o644 mtime triggers))
+      ∧ ∀ s ∈ DebCtl.scriptSlots, DebCtl.lookup s.1 ms = (scripts s.1).map (DebCtl.file s.1 s.2 mtime) := by
+  obtain ⟨l1, l2, l3, l4, l5⟩ := DebCtl.lookup_members mtime control md5sums conffiles triggers scripts
+  exact ⟨_, DebCtl.read_members mtime control md5sums conffiles triggers scripts hm hc h5 hf ht hs, l1, l2, l3, l4, l5⟩
+
+/-- the slot names of the byte-level archive are the documented deb slots of the wiring table (C09's `debSlots`) -/
+example : DebCtl.scriptSlots.map (·.1) = [b!"config", b!"postinst", b!"postrm", b!"preinst", b!"prerm", b!"rules", b!"templates"] := by
+  decide
 
 /-- the translator regenerated, on this run and from the working tree, every table this property is tied through
     (when an extraction fails the reviewed table stands in so that the model still compiles, and this stops checking) -/
